@@ -7,11 +7,15 @@
 // every single delivery the stored record of the cell is read back and compared
 // with a reference model that is a function of the SET of reports delivered so
 // far (none -> 0; one distinct report, not over capacity -> that report; two
-// distinct contents or any over-capacity report -> 1; banned stays banned). After
+// distinct 80-byte reports – the same content under a second valid signature
+// counts as distinct – or any over-capacity report -> 1; banned stays banned). After
 // every sequence the whole state is compared with the state before it: nothing
 // but the cell (and the internal recent list) may differ. The published surfaces
 // (all-device-stats, recent-reports, sync bitfield) are compared with model and
-// snapshot on a sample of sequences.
+// snapshot on a sample of sequences. Further parts: random interleaved sequences
+// over 3 devices x 6 slots, back-to-back bursts through the real socket while the
+// server mutex is kept busy (with and without foreign noise datagrams), and one
+// concurrent stress batch built with -race.
 package main
 
 import (
@@ -20,6 +24,7 @@ import (
 	"fmt"
 	"math/big"
 	"math/rand"
+	"net"
 	"os"
 	"path/filepath"
 	"sort"
@@ -201,6 +206,9 @@ func plan(tier string, seed int64) []run.Batch {
 }
 
 func post(c *ev.Check, outs []*run.Outcome) {
+	if os.Getenv("VERIF_REPLAY") != "" {
+		return // a replay re-runs one batch: completeness requirements do not apply
+	}
 	alpha, maxLen := exhParams(c.Tier)
 	want := spaceSize(len(alpha), maxLen)
 	got := c.Counter("exh.sequences")
@@ -803,13 +811,24 @@ func (e *env) surfaces(after *server.VerifSnap, cells []*cell, full bool, now ui
 		cs := byDev[id]
 		run.Op("sync dev=%d", id)
 		var raw []byte
-		if !e.transport("sync", func() (err error) {
-			raw, err = e.w.SyncRaw([]byte{byte(id), byte(id >> 8), byte(id >> 16), byte(id >> 24)})
-			return
-		}) {
+		var rep refenc.SyncReply
+		var refused bool
+		var err error
+		for try := 0; try < 3; try++ { // the sync handler works against a 2.5 s connection deadline: under CPU starvation a reply can be cut short; a reply that stays unparsable is a finding
+			if !e.transport("sync", func() (err error) {
+				raw, err = e.w.SyncRaw([]byte{byte(id), byte(id >> 8), byte(id >> 16), byte(id >> 24)})
+				return
+			}) {
+				break
+			}
+			if rep, refused, err = refenc.ParseSyncReply(raw); err == nil {
+				break
+			}
+			e.r.Count("sync_reply_retries", 1)
+		}
+		if raw == nil {
 			continue
 		}
-		rep, refused, err := refenc.ParseSyncReply(raw)
 		if err != nil || refused {
 			e.r.Violationf("sync-surface-unavailable", cs[0].replay(now, e.offset), "sync for authorized device %d failed: refused=%v err=%v (%d bytes)", id, refused, err, len(raw))
 			continue
@@ -1148,12 +1167,49 @@ func (e *env) runBursts(nBursts, k int) {
 		e.rng.Shuffle(len(dgs), func(i, j int) { dgs[i], dgs[j] = dgs[j], dgs[i] })
 		before := e.snap
 		run.Op("burst %d: %d datagrams back to back through the socket, now=%d offset=%d first index %d", b, len(dgs), now, e.offset, lo)
+		// every third burst is accompanied by unacceptable datagrams from a second socket ("another process
+		// that still sends to this port"): they must change nothing, and the completion barrier must not
+		// mistake them for the burst's own datagrams
+		noise := 0
+		var ng sync.WaitGroup
 		start := e.udp.Begin()
+		if b%3 == 2 {
+			noise = 12
+			junk := make([][]byte, noise)
+			for i := range junk {
+				junk[i] = make([]byte, 80)
+				e.rng.Read(junk[i])
+				if i%2 == 0 { // names a real device and slot, garbage signature
+					copy(junk[i], cells[i%len(cells)].sent0()[:16])
+				}
+			}
+			ng.Add(1)
+			go func() {
+				defer ng.Done()
+				c, err := net.Dial("udp", fmt.Sprintf("127.0.0.1:%d", e.w.UDP))
+				if err != nil {
+					return
+				}
+				defer c.Close()
+				for _, j := range junk {
+					c.Write(j)
+				}
+			}()
+		}
 		for _, d := range dgs {
 			e.udp.Write(d)
 		}
 		ok := e.udp.Barrier(start, len(dgs))
 		after := e.w.S.VerifSnapshot(true)
+		if noise > 0 { // let the noise drain before the next burst starts counting
+			ng.Wait()
+			e.udp.Barrier(start, len(dgs)) // (re-reads the log; returns at once)
+			deadline := time.Now().Add(3 * time.Second)
+			for server.VerifUDPHandled() < start+uint64(len(dgs)+noise) && time.Now().Before(deadline) {
+				time.Sleep(200 * time.Microsecond)
+			}
+			e.r.Count("burst.with_foreign_noise", 1)
+		}
 		e.snap = after
 		if !ok {
 			// fewer completions than datagrams: the kernel dropped some (UDP) – nothing certain can be said about this burst
@@ -1188,6 +1244,12 @@ func (e *env) runBursts(nBursts, k int) {
 	if judged < (nBursts+1)/2 {
 		e.r.Inconc(fmt.Sprintf("only %d of %d socket bursts could be judged (datagrams lost on loopback)", judged, nBursts))
 	}
+}
+
+// sent0 returns the first datagram built for the cell.
+func (c *cell) sent0() []byte {
+	b, _ := hex.DecodeString(c.sent[0])
+	return b
 }
 
 func (e *env) single(c *cell) refenc.Report {
